@@ -267,6 +267,10 @@ def run(prog: Program, rep: Report, tier: str) -> None:
     rep.rule("R09.3", "alive is only ever cleared; out-of-grid candidates die", 16)
     rep.rule("R09.4", "horizontal positions are written only by Tracker.update (release and warm start aside); no in-place writes through aliases", 3)
     rep.rule("R09.5", "valid region = strict box inside [xmin, xmax] x [ymin, ymax]; atsea = land mask of the particle's own cell", 7)
+    rep.rule("R09.7", "a dead particle appears in no later sparse record: State.compactify removes the dead whenever the state holds any (shared with C05 R05.3)", 1)
+    from . import c05
+
+    c05.dead_removed(prog, rep, "R09.7")
     rep.rule("R09.6", "a dead particle cannot reappear in a dense-layout record: the state is compactified only under the sparse layout (shared with C06 R06.6)", 1)
     from . import c06
 
